@@ -28,6 +28,10 @@ enum Ty {
     Utf8(bool),
     Binary(bool),
     Fsb(usize),
+    /// Utf8View (true) / BinaryView
+    View(bool),
+    /// Map(key, value, value nullable): physically List<Struct<key not null, value>>
+    Map(Box<Ty>, Box<Ty>, bool),
     List(bool, Box<Ty>, bool),
     Fsl(usize, Box<Ty>, bool),
     Struct(Vec<(bool, Ty)>),
@@ -48,6 +52,8 @@ fn show_ty(t: &Ty) -> String {
         Ty::Utf8(l) => if *l { "T" } else { "t" }.into(),
         Ty::Binary(l) => if *l { "Y" } else { "y" }.into(),
         Ty::Fsb(n) => format!("x{}", n),
+        Ty::View(u) => if *u { "v" } else { "w" }.into(),
+        Ty::Map(k, v, vn) => format!("M!<s<!{},{}{}>>", show_ty(k), nb(*vn), show_ty(v)),
         Ty::List(l, i, n) => format!("{}{}<{}>", if *l { 'L' } else { 'l' }, nb(*n), show_ty(i)),
         Ty::Fsl(k, i, n) => format!("f{}{}<{}>", k, nb(*n), show_ty(i)),
         Ty::Struct(fs) => format!("s<{}>", fs.iter().map(|(n, t)| format!("{}{}", nb(*n), show_ty(t))).collect::<Vec<_>>().join(",")),
@@ -112,6 +118,22 @@ fn parse_ty(c: &mut Cur) -> Ty {
         b'y' => Ty::Binary(false),
         b'Y' => Ty::Binary(true),
         b'x' => Ty::Fsb(c.num() as usize),
+        b'v' => Ty::View(true),
+        b'w' => Ty::View(false),
+        b'M' => {
+            c.expect(b'!');
+            c.expect(b'<');
+            let inner = parse_ty(c);
+            c.expect(b'>');
+            match inner {
+                Ty::Struct(mut fs) if fs.len() == 2 => {
+                    let (vn, v) = fs.pop().unwrap();
+                    let (_, k) = fs.pop().unwrap();
+                    Ty::Map(Box::new(k), Box::new(v), vn)
+                }
+                _ => panic!("map entries"),
+            }
+        }
         k @ (b'l' | b'L') => {
             let n = c.next() == b'?';
             c.expect(b'<');
@@ -195,6 +217,12 @@ fn to_dt(t: &Ty) -> DataType {
         Ty::Binary(false) => DataType::Binary,
         Ty::Binary(true) => DataType::LargeBinary,
         Ty::Fsb(n) => DataType::FixedSizeBinary(*n as i32),
+        Ty::View(true) => DataType::Utf8View,
+        Ty::View(false) => DataType::BinaryView,
+        Ty::Map(k, v, vn) => DataType::Map(
+            Arc::new(Field::new("entries", DataType::Struct(struct_fields(&[(false, (**k).clone()), (*vn, (**v).clone())])), false)),
+            false,
+        ),
         Ty::List(false, i, n) => DataType::List(Arc::new(Field::new("item", to_dt(i), *n))),
         Ty::List(true, i, n) => DataType::LargeList(Arc::new(Field::new("item", to_dt(i), *n))),
         Ty::Fsl(k, i, n) => DataType::FixedSizeList(Arc::new(Field::new("item", to_dt(i), *n)), *k as i32),
@@ -479,6 +507,14 @@ fn exercise_server() {
             match t.get(1).copied() {
                 Some("trynew") => try_new_rec(&parse_phys_str(t[2])).ok(),
                 Some("full") => Some(unchecked_rec(&parse_phys_str(t[2]))),
+                Some("lview") => {
+                    let w: usize = t[2].parse().unwrap();
+                    let cl: usize = t[7].parse().unwrap();
+                    let item = Arc::new(Field::new("item", DataType::Int8, true));
+                    let dt = if w == 8 { DataType::LargeListView(item) } else { DataType::ListView(item) };
+                    let child = ArrayData::try_new(DataType::Int8, cl, None, 0, vec![abuf(&vec![7u8; cl])], vec![]).unwrap();
+                    ArrayData::try_new(dt, t[3].parse().unwrap(), None, t[4].parse().unwrap(), vec![abuf(&unhex_e(t[5])), abuf(&unhex_e(t[6]))], vec![child]).ok()
+                }
                 Some("typed") | Some("tacc") | Some("trej") => typed(t[2], &parse_phys_str(t[3])).ok(),
                 _ => None,
             }
@@ -544,6 +580,34 @@ fn typed(kind: &str, p: &Phys) -> Result<ArrayData, ArrowError> {
             shape(p.kids.len() == 1)?;
             let f = Arc::new(Field::new("item", to_dt(item), *n));
             Ok(LargeListArray::try_new(f, o, kid_array(&p.kids[0])?, nulls_of(p))?.to_data())
+        }
+        ("fsbin", Ty::Fsb(n)) => Ok(FixedSizeBinaryArray::try_new(*n as i32, abuf(&p.bufs[0]), nulls_of(p))?.to_data()),
+        ("prim", Ty::Prim(w)) => {
+            let b = abuf(&p.bufs[0]);
+            let n = nulls_of(p);
+            match w {
+                1 => Ok(Int8Array::try_new(ScalarBuffer::from(b), n)?.to_data()),
+                2 => Ok(Int16Array::try_new(ScalarBuffer::from(b), n)?.to_data()),
+                4 => Ok(Int32Array::try_new(ScalarBuffer::from(b), n)?.to_data()),
+                _ => Ok(Int64Array::try_new(ScalarBuffer::from(b), n)?.to_data()),
+            }
+        }
+        ("view", Ty::View(u)) => {
+            let views = ScalarBuffer::<u128>::from(abuf(&p.bufs[0]));
+            let bufs: Vec<Buffer> = p.bufs[1..].iter().map(|b| abuf(b)).collect();
+            if *u {
+                Ok(StringViewArray::try_new(views, bufs, nulls_of(p))?.to_data())
+            } else {
+                Ok(BinaryViewArray::try_new(views, bufs, nulls_of(p))?.to_data())
+            }
+        }
+        ("map", Ty::Map(k, v, vn)) => {
+            let o = OffsetBuffer::new(ScalarBuffer::<i32>::from(abuf(&p.bufs[0])));
+            shape(p.kids.len() == 1)?;
+            let st = DataType::Struct(struct_fields(&[(false, (**k).clone()), (*vn, (**v).clone())]));
+            let f = Arc::new(Field::new("entries", st, false));
+            let entries = StructArray::from(try_new_rec(&p.kids[0])?);
+            Ok(MapArray::try_new(f, o, entries, nulls_of(p), false)?.to_data())
         }
         ("fsl", Ty::Fsl(k, item, n)) => {
             shape(p.kids.len() == 1)?;
@@ -611,6 +675,10 @@ fn typed_len(kind: &str, p: &Phys) -> Option<usize> {
         }
         ("fsl", Ty::Fsl(k, _, _)) => if *k == 0 { Some(if p.nulls.is_some() { p.len } else { 0 }) } else { Some(p.kids.first()?.len / k) },
         ("dict", Ty::Dict(kw, _, _)) => Some(p.bufs.first()?.len() / kw),
+        ("view", Ty::View(_)) => Some(p.bufs.first()?.len() / 16),
+        ("fsbin", Ty::Fsb(n)) => if *n == 0 { Some(if p.nulls.is_some() { p.len } else { 0 }) } else { Some(p.bufs.first()?.len() / n) },
+        ("prim", Ty::Prim(w)) => Some(p.bufs.first()?.len() / w),
+        ("map", Ty::Map(..)) => Some((p.bufs.first()?.len() / 4).saturating_sub(1)),
         ("union", _) => Some(p.bufs.first()?.len()),
         ("run", Ty::Ree(rw, _)) => {
             let re = p.kids.first()?;
@@ -680,6 +748,62 @@ fn run_case(line: &str) -> String {
                 Err(_) => "REJ".into(),
             });
             if r == "PANIC" { "REJ".into() } else { r }
+        }
+        "lview" => {
+            // C09 lview <w> <len> <offset> <offsets> <sizes> <childlen>: ListView / LargeListView of Int8,
+            // ArrayData::try_new and GenericListViewArray::try_new (whole buffers)
+            let w: usize = t[2].parse().unwrap();
+            let (len, off): (usize, usize) = (t[3].parse().unwrap(), t[4].parse().unwrap());
+            let (ob, sb) = (unhex_e(t[5]), unhex_e(t[6]));
+            let cl: usize = t[7].parse().unwrap();
+            let item = Arc::new(Field::new("item", DataType::Int8, true));
+            let dt = if w == 8 { DataType::LargeListView(item.clone()) } else { DataType::ListView(item.clone()) };
+            let child = || ArrayData::try_new(DataType::Int8, cl, None, 0, vec![abuf(&vec![7u8; cl])], vec![]).unwrap();
+            let a = guarded(|| match ArrayData::try_new(dt.clone(), len, None, off, vec![abuf(&ob), abuf(&sb)], vec![child()]) {
+                Ok(d) => {
+                    let _ = accepted(&d);
+                    "ok".into()
+                }
+                Err(_) => "ERR".into(),
+            });
+            let b = guarded(|| {
+                let vals = make_array(child());
+                let r = if w == 8 {
+                    LargeListViewArray::try_new(item.clone(), ScalarBuffer::<i64>::from(abuf(&ob)), ScalarBuffer::<i64>::from(abuf(&sb)), vals, None).map(|a| a.to_data())
+                } else {
+                    ListViewArray::try_new(item.clone(), ScalarBuffer::<i32>::from(abuf(&ob)), ScalarBuffer::<i32>::from(abuf(&sb)), vals, None).map(|a| a.to_data())
+                };
+                match r {
+                    Ok(d) => if d.validate_full().is_ok() { "ok".into() } else { "ok-but-invalid".into() },
+                    Err(_) => "REJ".into(),
+                }
+            });
+            format!("t={} y={}", a, if b == "PANIC" { "REJ".to_string() } else { b })
+        }
+        "ffi" => {
+            // C09 ffi <array>: export through the C data interface and import again
+            let p = parse_phys_str(t[2]);
+            guarded(|| {
+                let Ok(d) = try_new_rec(&p) else { return "ERR".into() };
+                let arr = make_array(d);
+                let src = arr.to_data();
+                let Ok((fa, fs)) = arrow_array::ffi::to_ffi(&src) else { return "ERR:export".into() };
+                let back = match unsafe { arrow_array::ffi::from_ffi(fa, &fs) } {
+                    Ok(b) => b,
+                    Err(_) => return "ERR:import".into(),
+                };
+                if let Err(e) = back.validate_full() {
+                    if std::env::var("VERIF_LOUD").is_ok() {
+                        eprintln!("imported invalid: {} | imported buffers {:?} offset {} len {}", e, back.buffers().iter().map(|b| b.len()).collect::<Vec<_>>(), back.offset(), back.len());
+                    }
+                    return "IMPORTED-INVALID".into();
+                }
+                if back.len() != src.len() || back.data_type() != src.data_type() {
+                    return "MISMATCH:shape".into();
+                }
+                let fmt = |a: &ArrayRef| (0..a.len().min(300)).map(|i| arrow_cast::display::array_value_to_string(a.as_ref(), i).unwrap_or_default()).collect::<Vec<_>>();
+                if fmt(&make_array(back)) != fmt(&arr) { "MISMATCH:values".into() } else { "ok".into() }
+            })
         }
         "obuf" => {
             // C09 obuf <w> <hex>: OffsetBuffer::new over a ScalarBuffer
@@ -825,11 +949,12 @@ fn gen_ty(rng: &mut Rng, depth: usize) -> Ty {
             4 => Ty::Utf8(rng.bool()),
             5 => Ty::Utf8(false),
             6 => Ty::Binary(rng.bool()),
-            7 => Ty::Fsb(rng.usize(4)),
+            7 => if rng.bool() { Ty::Fsb(rng.usize(4)) } else { Ty::View(rng.bool()) },
             _ => Ty::Prim(8),
         }
     } else {
-        match rng.below(7) {
+        match rng.below(8) {
+            7 => Ty::Map(Box::new(gen_ty(rng, 2)), Box::new(gen_ty(rng, depth + 1)), rng.bool()),
             0 => Ty::List(rng.bool(), Box::new(gen_ty(rng, depth + 1)), rng.chance(2, 3)),
             1 => Ty::Fsl(rng.usize(4), Box::new(gen_ty(rng, depth + 1)), rng.chance(2, 3)),
             2 => {
@@ -887,6 +1012,41 @@ fn gen_valid(rng: &mut Rng, ty: &Ty, n: usize, off: usize, no_nulls: bool, depth
         Ty::Bool => p.bufs.push({ let e = extra(rng); rng.bytes((total + 7) / 8 + e) }),
         Ty::Prim(w) => p.bufs.push({ let e = extra(rng); rng.bytes(total * w + e) }),
         Ty::Fsb(w) => p.bufs.push({ let e = extra(rng); rng.bytes(total * w + e) }),
+        Ty::View(u) => {
+            let nbuf = rng.usize(3);
+            let mut datas: Vec<Vec<u8>> = (0..nbuf).map(|_| vec![b'#'; rng.usize(3)]).collect();
+            let mut views: Vec<u8> = vec![];
+            for _ in 0..total {
+                let mut val: Vec<u8> = vec![];
+                let target = *rng.pick(&[0usize, 1, 3, 4, 5, 11, 12, 13, 14, 20]);
+                while val.len() < target {
+                    if *u { val.extend_from_slice(rng.pick(&CHARS).as_bytes()); } else { val.push(rng.next_u64() as u8); }
+                }
+                if val.len() > 12 && nbuf == 0 { val.truncate(if *u { 0 } else { 12 }); }
+                let mut v = [0u8; 16];
+                v[..4].copy_from_slice(&(val.len() as u32).to_le_bytes());
+                if val.len() <= 12 {
+                    v[4..4 + val.len()].copy_from_slice(&val);
+                } else {
+                    let bi = rng.usize(nbuf);
+                    let at = datas[bi].len();
+                    datas[bi].extend_from_slice(&val);
+                    v[4..8].copy_from_slice(&val[..4]);
+                    v[8..12].copy_from_slice(&(bi as u32).to_le_bytes());
+                    v[12..16].copy_from_slice(&(at as u32).to_le_bytes());
+                }
+                views.extend_from_slice(&v);
+            }
+            for _ in 0..extra(rng) { views.extend_from_slice(&[0u8; 16]); }
+            p.bufs.push(views);
+            p.bufs.extend(datas);
+        }
+        Ty::Map(k, v, vn) => {
+            let st = Ty::Struct(vec![(false, (**k).clone()), (*vn, (**v).clone())]);
+            let mut q = gen_valid(rng, &Ty::List(false, Box::new(st), false), n, off, no_nulls, depth);
+            q.ty = ty.clone();
+            return q;
+        }
         Ty::Utf8(l) | Ty::Binary(l) => {
             let w = if *l { 8 } else { 4 };
             let mut data: Vec<u8> = vec![];
@@ -1025,13 +1185,14 @@ fn pick_off(rng: &mut Rng) -> usize {
 fn mutate(rng: &mut Rng, p: &mut Phys) -> Option<String> {
     let (len, off) = (p.len, p.offset);
     let total = len + off;
-    let m = rng.below(22);
+    let m = if matches!(p.ty, Ty::View(_)) && rng.chance(1, 2) { 20 } else { rng.below(22) };
     match m {
         0 => {
             // one offset out of order / out of bounds / negative
             let (w, limit) = match &p.ty {
                 Ty::Utf8(l) | Ty::Binary(l) => (if *l { 8 } else { 4 }, p.bufs.get(1)?.len()),
                 Ty::List(l, _, _) => (if *l { 8 } else { 4 }, p.kids.first()?.len),
+                Ty::Map(..) => (4, p.kids.first()?.len),
                 _ => return None,
             };
             if len == 0 || p.bufs[0].len() < (total + 1) * w {
@@ -1060,6 +1221,7 @@ fn mutate(rng: &mut Rng, p: &mut Phys) -> Option<String> {
             // an offset before `offset` or after `offset+len` is garbage: still valid
             let w = match &p.ty {
                 Ty::Utf8(l) | Ty::Binary(l) | Ty::List(l, _, _) => if *l { 8 } else { 4 },
+                Ty::Map(..) => 4,
                 _ => return None,
             };
             if off == 0 || p.bufs[0].len() < (total + 1) * w { return None; }
@@ -1171,6 +1333,8 @@ fn mutate(rng: &mut Rng, p: &mut Phys) -> Option<String> {
                 (Ty::Prim(w), 0) | (Ty::Fsb(w), 0) | (Ty::Dict(w, _, _), 0) => total * w,
                 (Ty::Utf8(l), 0) | (Ty::Binary(l), 0) | (Ty::List(l, _, _), 0) => (total + 1) * if *l { 8 } else { 4 },
                 (Ty::Union(..), 0) => total,
+                (Ty::View(_), 0) => total * 16,
+                (Ty::Map(..), 0) => (total + 1) * 4,
                 (Ty::Union(..), 1) => total * 4,
                 (Ty::Utf8(_), 1) | (Ty::Binary(_), 1) => {
                     // values buffer shorter than the last offset
@@ -1347,6 +1511,8 @@ fn mutate(rng: &mut Rng, p: &mut Phys) -> Option<String> {
             let w = match &p.ty {
                 Ty::Utf8(l) | Ty::Binary(l) | Ty::List(l, _, _) => if *l { 8 } else { 4 },
                 Ty::Dict(kw, _, _) => *kw,
+                Ty::View(_) => 16,
+                Ty::Map(..) => 4,
                 _ => return None,
             };
             if w <= 1 || p.bufs.is_empty() || p.bufs[0].is_empty() { return None; }
@@ -1354,6 +1520,74 @@ fn mutate(rng: &mut Rng, p: &mut Phys) -> Option<String> {
             let extra = rng.bytes(k);
             p.bufs[0].extend_from_slice(&extra);
             Some("mut:buffer-odd-length".into())
+        }
+        20 | 21 => {
+            // one view out of range / malformed
+            let Ty::View(u) = p.ty.clone() else { return None };
+            if len == 0 || p.bufs[0].len() < total * 16 { return None; }
+            let i = off + rng.usize(len);
+            let v: [u8; 16] = p.bufs[0][i * 16..i * 16 + 16].try_into().unwrap();
+            let vlen = u32::from_le_bytes([v[0], v[1], v[2], v[3]]) as usize;
+            let ndata = p.bufs.len() - 1;
+            let how = rng.below(7);
+            match how {
+                0 => {
+                    // non-zero padding of an inline view
+                    if vlen >= 12 { return None; }
+                    let v = &mut p.bufs[0][i * 16..i * 16 + 16];
+                    v[4 + vlen + rng.usize(12 - vlen)] = 1 + rng.usize(200) as u8;
+                    Some("mut:view-padding".into())
+                }
+                1 => {
+                    // inline length 12 -> 13 without a buffer behind it
+                    let v = &mut p.bufs[0][i * 16..i * 16 + 16];
+                    v[0] = 13;
+                    v[1] = 0;
+                    v[2] = 0;
+                    v[3] = 0;
+                    v[8..12].copy_from_slice(&(ndata as u32 + rng.usize(2) as u32).to_le_bytes());
+                    Some("mut:view-len13-no-buffer".into())
+                }
+                2 => {
+                    if vlen <= 12 { return None; }
+                    let v = &mut p.bufs[0][i * 16..i * 16 + 16];
+                    v[8..12].copy_from_slice(&(ndata as u32).to_le_bytes());
+                    Some("mut:view-buffer-index".into())
+                }
+                3 => {
+                    if vlen <= 12 { return None; }
+                    let bi = u32::from_le_bytes([v[8], v[9], v[10], v[11]]) as usize;
+                    let dl = p.bufs[1 + bi].len();
+                    let v = &mut p.bufs[0][i * 16..i * 16 + 16];
+                    v[12..16].copy_from_slice(&((dl - vlen + 1) as u32).to_le_bytes());
+                    Some("mut:view-offset-beyond".into())
+                }
+                4 => {
+                    if vlen <= 12 { return None; }
+                    let v = &mut p.bufs[0][i * 16..i * 16 + 16];
+                    v[4 + rng.usize(4)] ^= 0x01;
+                    Some("mut:view-prefix".into())
+                }
+                5 => {
+                    if !u || vlen == 0 { return None; }
+                    if vlen <= 12 {
+                        let v = &mut p.bufs[0][i * 16..i * 16 + 16];
+                        v[4 + rng.usize(vlen)] = 0xff;
+                    } else {
+                        let bi = u32::from_le_bytes([v[8], v[9], v[10], v[11]]) as usize;
+                        let at = u32::from_le_bytes([v[12], v[13], v[14], v[15]]) as usize;
+                        let k = 4 + rng.usize(vlen - 4);
+                        p.bufs[1 + bi][at + k] = 0xff;
+                    }
+                    Some("mut:view-utf8".into())
+                }
+                _ => {
+                    // huge length
+                    let v = &mut p.bufs[0][i * 16..i * 16 + 16];
+                    v[3] = 0x7f;
+                    Some("mut:view-len-huge".into())
+                }
+            }
         }
         _ => None,
     }
@@ -1382,6 +1616,8 @@ fn ty_tag(t: &Ty) -> &'static str {
         Ty::Utf8(_) => "utf8",
         Ty::Binary(_) => "binary",
         Ty::Fsb(_) => "fsb",
+        Ty::View(_) => "view",
+        Ty::Map(..) => "map",
         Ty::List(..) => "list",
         Ty::Fsl(..) => "fsl",
         Ty::Struct(_) => "struct",
@@ -1506,7 +1742,7 @@ fn gen_batch_case(rng: &mut Rng) -> (String, String) {
 
 fn gen_typed_case(rng: &mut Rng) -> (String, String) {
     loop {
-        let (kind, ty) = match rng.below(8) {
+        let (kind, ty) = match rng.below(10) {
             0 => ("bytes", if rng.bool() { Ty::Utf8(rng.bool()) } else { Ty::Binary(rng.bool()) }),
             1 => ("list", Ty::List(rng.bool(), Box::new(gen_ty(rng, 2)), rng.chance(2, 3))),
             2 => ("fsl", Ty::Fsl(1 + rng.usize(3), Box::new(gen_ty(rng, 2)), rng.chance(2, 3))),
@@ -1516,6 +1752,8 @@ fn gen_typed_case(rng: &mut Rng) -> (String, String) {
             }
             4 => ("dict", Ty::Dict(*rng.pick(&[1usize, 2, 4, 8]), rng.bool(), Box::new(gen_ty(rng, 2)))),
             5 => ("run", Ty::Ree(*rng.pick(&[2usize, 4, 8]), Box::new(gen_ty(rng, 2)))),
+            7 => if rng.bool() { ("fsbin", Ty::Fsb(rng.usize(4))) } else { ("prim", Ty::Prim(*rng.pick(&[1usize, 2, 4, 8]))) },
+            6 => if rng.bool() { ("view", Ty::View(rng.bool())) } else { ("map", Ty::Map(Box::new(gen_ty(rng, 2)), Box::new(gen_ty(rng, 2)), rng.bool())) },
             _ => {
                 let t = loop {
                     let t = gen_ty(rng, 1);
@@ -1533,7 +1771,9 @@ fn gen_typed_case(rng: &mut Rng) -> (String, String) {
                 if let Some(t) = mutate(rng, &mut q) {
                     if q.offset != 0 || q.nc.is_some() { continue; }
                     if t.contains("mut:buffer-added") || t.contains("mut:nulls-not-allowed") { continue; }
-                    if t.contains("mut:child-type") && (kind == "dict" || kind == "run") { continue; }
+                    if t.contains("mut:child-type") && (kind == "dict" || kind == "run" || kind == "map") { continue; }
+                    if (t.contains("mut:child-added") || t.contains("mut:child-dropped")) && (kind == "view" || kind == "fsbin" || kind == "prim") { continue; }
+                    if t.contains("mut:buffer-dropped") && kind == "view" { continue; }
                     if (t.contains("mut:child-added") || t.contains("mut:child-dropped")) && kind == "bytes" { continue; }
                     let extra_tag = if t.contains("mut:child-type") && kind == "union" { " kf:union-try-new-child-type" } else { "" };
                     tags.push_str(&format!(" {}{} nt", t.replace("kf:", "untyped-kf:"), extra_tag));
@@ -1847,6 +2087,113 @@ fn gen_block_case(rng: &mut Rng) -> (String, String) {
     }
 }
 
+/// view arrays with long values in 1..3 data buffers and lengths on the inline boundary (11/12/13)
+fn gen_view_case(rng: &mut Rng) -> (String, String) {
+    let u = rng.bool();
+    let n = 1 + rng.usize(6);
+    let off = if rng.chance(1, 3) { 1 + rng.usize(2) } else { 0 };
+    let total = n + off;
+    let nbuf = 1 + rng.usize(3);
+    let mut datas: Vec<Vec<u8>> = (0..nbuf).map(|_| vec![b'#'; rng.usize(2)]).collect();
+    let mut views: Vec<u8> = vec![];
+    for _ in 0..total {
+        let target = *rng.pick(&[0usize, 4, 11, 12, 13, 13, 16, 30]);
+        let mut val: Vec<u8> = vec![];
+        while val.len() < target {
+            if u { val.extend_from_slice(rng.pick(&CHARS).as_bytes()); } else { val.push(rng.next_u64() as u8); }
+        }
+        let mut v = [0u8; 16];
+        v[..4].copy_from_slice(&(val.len() as u32).to_le_bytes());
+        if val.len() <= 12 {
+            v[4..4 + val.len()].copy_from_slice(&val);
+        } else {
+            let bi = rng.usize(nbuf);
+            let at = datas[bi].len();
+            datas[bi].extend_from_slice(&val);
+            v[4..8].copy_from_slice(&val[..4]);
+            v[8..12].copy_from_slice(&(bi as u32).to_le_bytes());
+            v[12..16].copy_from_slice(&(at as u32).to_le_bytes());
+        }
+        views.extend_from_slice(&v);
+    }
+    let mut bufs = vec![views];
+    bufs.extend(datas);
+    let nulls = if rng.chance(1, 3) { Some(rng.bytes((total + 7) / 8)) } else { None };
+    let mut p = Phys { ty: Ty::View(u), len: n, offset: off, nulls, nc: None, bufs, kids: vec![] };
+    let mut tag = "mut:none valid".to_string();
+    if rng.chance(4, 5) {
+        for _ in 0..10 {
+            let mut q = p.clone();
+            if let Some(t) = mutate(rng, &mut q) {
+                if t.starts_with("mut:view") { p = q; tag = t; break; }
+            }
+        }
+    }
+    let typed_ok = p.offset == 0;
+    let op = match rng.below(3) { 0 if typed_ok => "typed view", 1 => "full", _ => "trynew" };
+    if op == "typed view" { p.len = p.bufs[0].len() / 16; }
+    (format!("C09 {} {}", op, show_phys(&p)), format!("type:view directed-view {} {} nt op:{}", tag, if off > 0 { "off>0" } else { "" }, op.split(' ').next().unwrap()))
+}
+
+/// list-view offsets + sizes, one defect at a chosen index class
+fn gen_lview_case(rng: &mut Rng) -> (String, String) {
+    let w = if rng.chance(1, 3) { 8 } else { 4 };
+    let l = *rng.pick(&[0usize, 1, 2, 7, 8, 9, 63, 64, 65, 100, 128, 129, 200]);
+    let off = if rng.chance(1, 3) { 1 + rng.usize(3) } else { 0 };
+    let total = l + off;
+    let cl = 1 + rng.usize(9);
+    let mut offs = vec![];
+    let mut sizes = vec![];
+    for _ in 0..total {
+        let o = rng.usize(cl + 1);
+        let sz = rng.usize(cl - o + 1);
+        put_int(o as i64, w, &mut offs);
+        put_int(sz as i64, w, &mut sizes);
+    }
+    let mut defect = "none";
+    if total > 0 && rng.chance(3, 4) {
+        let j = pick_index(rng, total - 1);
+        let visible = j >= off;
+        match rng.below(5) {
+            0 => { set_int(&mut offs, j, w, -1); defect = if visible { "neg-offset" } else { "neg-offset-hidden" }; }
+            1 => { set_int(&mut sizes, j, w, -1); defect = if visible { "neg-size" } else { "neg-size-hidden" }; }
+            2 => { set_int(&mut offs, j, w, cl as i64); set_int(&mut sizes, j, w, 1); defect = if visible { "beyond" } else { "beyond-hidden" }; }
+            3 => { set_int(&mut offs, j, w, cl as i64); set_int(&mut sizes, j, w, 0); defect = "offset-at-end-size0"; }
+            _ => { sizes.truncate(sizes.len() - w); defect = "sizes-short"; }
+        }
+    }
+    (
+        format!("C09 lview {} {} {} {} {} {}", w, l, off, hex(&offs), hex(&sizes), cl),
+        format!("op:lview type:list-view defect:{} len:{} {} nt", defect, l, if off > 0 { "off>0" } else { "" }),
+    )
+}
+
+/// C data interface round trip of a valid (possibly sliced, nested) array
+fn gen_ffi_case(rng: &mut Rng) -> (String, String) {
+    loop {
+        let ty = gen_ty(rng, 1);
+        // unions / run-end arrays with child offsets hit known accessor limitations: keep them out of the round trip
+        if show_ty(&ty).contains(['D', 'S', 'r']) { continue; }
+        let (pl, po) = (pick_len(rng).min(70), pick_off(rng));
+        let p = gen_valid(rng, &ty, pl, po, false, 0);
+        // an (effectively) empty Utf8/Binary node whose first visible offset is not 0; a struct /
+        // fixed-size-list parent of length 0 slices its children down to length 0 on import/export
+        fn empty_bin_nonzero_first(p: &Phys, inherited: bool) -> bool {
+            let here = match &p.ty {
+                Ty::Utf8(l) | Ty::Binary(l) => {
+                    let w = if *l { 8 } else { 4 };
+                    inherited || (p.len == 0 && p.bufs[0].len() >= (p.offset + 1) * w && get_int(&p.bufs[0], p.offset, w) != 0)
+                }
+                _ => false,
+            };
+            let pass = ((inherited || p.len == 0) && matches!(p.ty, Ty::Struct(_) | Ty::Fsl(..))) || matches!(p.ty, Ty::Fsl(0, _, _));
+            here || p.kids.iter().any(|k| empty_bin_nonzero_first(k, pass))
+        }
+        let kf = if empty_bin_nonzero_first(&p, false) { " kf:ffi-empty-binary-first-offset" } else { "" };
+        return (format!("C09 ffi {}", show_phys(&p)), format!("op:ffi type:{} {} nt{}", ty_tag(&ty), if p.offset > 0 { "off>0" } else { "" }, kf));
+    }
+}
+
 fn gen_fromlens_case(rng: &mut Rng) -> (String, String) {
     let n = rng.usize(80);
     let big = rng.chance(1, 6);
@@ -1861,7 +2208,7 @@ fn gen_case(rng: &mut Rng) -> (String, String) {
         1 | 2 => gen_batch_case(rng),
         3..=6 => gen_typed_case(rng),
         7..=9 => gen_utf8_case(rng),
-        10..=12 => if rng.chance(1, 12) { gen_fromlens_case(rng) } else { gen_block_case(rng) },
+        10..=12 => match rng.below(12) { 0 => gen_fromlens_case(rng), 1 | 2 => gen_lview_case(rng), 3 | 4 => gen_ffi_case(rng), _ => gen_block_case(rng) },
         _ => gen_layout_case(rng),
     }
 }
@@ -1916,6 +2263,19 @@ fn main() {
     } else {
         for (l, t) in WITNESSES.iter().zip(WITNESS_TAGS.iter()) {
             emit(&mut sink, l.to_string(), t);
+        }
+        // a fixed block of boundary cases, identical in every run (seed independent)
+        let mut frng = Rng::new(0xC09_F1ED);
+        let nfixed = n_cases(&args, 6000, 150000).min(6000) / 10;
+        for i in 0..nfixed {
+            let (line, tags) = match i % 6 {
+                0 | 1 => gen_block_case(&mut frng),
+                2 => gen_utf8_case(&mut frng),
+                3 => gen_nonnull_offset_case(&mut frng),
+                4 => gen_lview_case(&mut frng),
+                _ => gen_view_case(&mut frng),
+            };
+            emit(&mut sink, line, &format!("{} fixed", tags));
         }
         let mut rng = Rng::new(args.seed ^ 0xC09);
         let n = n_cases(&args, 6000, 150000);
